@@ -436,7 +436,11 @@ theorem simpleExec_ren {π : Ren} {P : String → Bool} {s s' : St} (h : Rel π 
   case break_ => exact h
   case continue_ => exact h
   case global ns => exact h
-  case functionDef => exact h
+  case functionDef a n args body decs ret tps =>
+    simp only [renStmt, simpleExec]
+    split
+    · exact h
+    · trivial
   case return_ v =>
     cases v with
     | none => exact ⟨rfl, h⟩
